@@ -17,7 +17,8 @@ TRUSTED = {
           'decreases (exec_allows_no_decreases_clause on that one function)',
     'A9': 'A9 tiling contracts of the closure-based callees: word ++ whitespace concatenate to the line. For the ASCII separator this is PROVED (unit U13, '
           'find_words_ascii_space after closure conversion R16); for split_words it is PROVED (unit U14) relative to the assumed shape of WordSplitter::split_points, for break_apart it is PROVED (unit U15); for the Unicode separator it is assumed in Verus and checked exhaustively within scope by BEC (C11/C12 contracts)',
-    'A10': 'A10 str slicing in wrap\'s reassembly is proved range-safe; char-boundary safety of &line[idx..idx+len] is checked by BEC only',
+    'A10': 'A10 (discharged) char-boundary safety of &line[idx..idx+len] in wrap\'s reassembly is now PROVED in U11 (the seam between valid UTF-8 pieces is a char boundary), '
+           'and String::from_utf8(..).unwrap() in fill_inplace is proved not to fail in U10 (overwriting an ASCII byte by an ASCII byte keeps UTF-8 validity)',
     'A11': 'A11 stated preconditions: wrap_optimal_fit: fragments.len() < usize::MAX; wrap_columns: columns <= isize::MAX and '
            'display_width(middle_gap)*(columns-1) <= usize::MAX (the "result could not fit in memory" exemption made precise)',
     'A12': 'A12 the rewrite rules R0-R15 preserve behaviour (each application is logged in the evidence); the Python lexer/merger, Verus, Z3, Kani/CBMC, rustc',
@@ -165,7 +166,8 @@ PROPS = {
     },
     'C17': {
         'units': ['U10', 'U1', 'U13'], 'level': 'other', 'trusted': ['A1', 'A3', 'A4', 'A5', 'A9', 'A12', 'R16'],
-        'proved_part': 'Verus, all inputs: fill_inplace keeps the length and every changed byte was \' \' and became \'\\n\' (under the ASCII tiling contract A9 and first-fit\'s partition).',
+        'proved_part': 'Verus, all inputs: fill_inplace keeps the length and every changed byte was \' \' and became \'\\n\'; the edited bytes stay valid UTF-8, so the final '
+                       'from_utf8().unwrap() cannot panic (U10, using first-fit\'s partition U1 and the ASCII tiling now proved in U13).',
         'bounded_part': 'BEC: full statement including agreement with wrap at the documented options.',
         'explanation': 'Mixed: the in-place edit is proved; agreement with wrap is relational and bounded.',
     },
